@@ -25,6 +25,7 @@ type SpecConfig struct {
 	PRootPkg         float64
 	PStd             float64
 	PPre             float64 // pre-existing look-alike / foreign files
+	PNamedFields     float64 // struct fields named after (and documented unlike) another type of the package
 	PLineDirective   float64 // a //line directive in front of a declaration (as goyacc, ragel, templ or cgo write them)
 	Base             string
 	AllowFalse       bool
@@ -58,6 +59,7 @@ func DrawSpecConfig(r *Rng, genNames []string, base string) SpecConfig {
 		PStd:             onoff(0.4, 0.5),
 		PPre:             onoff(0.6, 0.7),
 		PLineDirective:   onoff(0.25, 0.35),
+		PNamedFields:     onoff(0.6, 0.6),
 		Base:             base,
 		AllowFalse:       true,
 	}
@@ -308,6 +310,35 @@ func drawDecls(r *Rng, cfg SpecConfig, p *PkgSpec, pi int) {
 		f.Decls = append(f.Decls, d)
 		if d.Kind != "alias" {
 			typeDecls = append(typeDecls, d)
+		}
+	}
+	// fields named after another type of the package, with a comment of their own: the tags a generator
+	// reads for the field (Context.Doc on the field object) are the field's, and the type's stay the type's
+	if r.P(cfg.PNamedFields) && len(typeDecls) > 1 {
+		var structs []*Decl
+		for _, t := range typeDecls {
+			if t.Kind == "struct" {
+				structs = append(structs, t)
+			}
+		}
+		for k := r.Range(1, 3); k > 0 && len(structs) > 0; k-- {
+			st, t := Pick(r, structs), Pick(r, typeDecls)
+			typ := "*" + t.Name
+			if t.Kind == "generic" {
+				typ += "[int]"
+			}
+			dup := t == st || t.Name == "ID" || t.Name == "Name"
+			for _, f := range st.Fields {
+				dup = dup || strings.HasSuffix(f, "\t"+t.Name+" "+typ)
+			}
+			if dup {
+				continue
+			}
+			fd := &Decl{Tags: drawTags(r, cfg.GenNames, 0.7, cfg.AllowFalse)}
+			if r.P(0.5) {
+				fd.Doc = []string{t.Name + " " + Pick(r, docWords)}
+			}
+			st.Fields = append(st.Fields, docLines(fd, "\t")+"\t"+t.Name+" "+typ)
 		}
 	}
 	// methods
